@@ -52,7 +52,7 @@ def run(run):
     rng = run.rng
     run.do_ties()
     quick = run.quick
-    rmax = 3 if quick else 6
+    rmax = 3 if quick else 4
     reqs = ["get_res0_cells"]
     cells = [c for r in range(-1, rmax + 1) for c in gen.all_cells(r)]
     for c in cells:
@@ -62,14 +62,14 @@ def run(run):
             if fo > MAXFAN:
                 break
             # every target with a small fan-out; the large ones (up to 4^8 cells per call) for a sample of the cells
-            if fo > 1024 and rng.random() > (0.01 if quick else 0.05):
+            if fo > 1024 and rng.random() > (0.01 if quick else 0.004):
                 continue
             reqs.append(f"cell_to_children {c} {tgt}")
         for tgt in range(-2, res + 2):
             reqs.append(f"cell_to_parent {c} {tgt}")
         reqs.append(f"cell_to_children {c} none")
         reqs.append(f"cell_to_parent {c} none")
-    for _ in range(1500 if quick else 40000):
+    for _ in range(run.n(1500, 40000)):
         c = gen.rand_cell(rng, lo=rmax + 1)
         res = spec.decode(c)[0]
         m = rng.random()
